@@ -217,6 +217,26 @@ Fixpoint reload (attempts : nat) (reuse : bool) (old : mem) : prog (mem * rstatu
       end
   end.
 
+(* the first load (NewStack): like reload from an empty stack, but when every
+   attempt lost a race there is no earlier state to keep: the open fails
+   (fix: commit "NewStack reports an error when every load attempt lost a race") *)
+Fixpoint open_reload (attempts : nat) : prog (option mem) :=
+  match attempts with
+  | O => Ret None
+  | S a =>
+      do! r := op QReadList in
+      let names := match r with SNames (Some l) => l | _ => [] end in
+      do! o := open_all true [] names [] in
+      match o with
+      | Some m => Ret (Some m)
+      | None =>
+          do! r2 := op QReadList in
+          let after := match r2 with SNames (Some l) => l | _ => [] end in
+          if names_eqb after names then Ret None
+          else open_reload a
+      end
+  end.
+
 Fixpoint remove_tlocks (l : list nat) : prog unit :=
   match l with
   | [] => Ret tt
@@ -378,7 +398,7 @@ Definition wrap {A} (p : prog A) (f : A -> option mem * apires) : prog (option m
 Definition call_prog (attempts : nat) (o : apiop) (m : option mem) : prog (option mem * apires) :=
   match o, m with
   | AOpen, _ =>
-      wrap (reload attempts true []) (fun r => match snd r with RlOk => (Some (fst r), ROk) | RlNotExist => (None, RErr) end)
+      wrap (open_reload attempts) (fun r => match r with Some m => (Some m, ROk) | None => (None, RErr) end)
   | AAdd tx auto, Some mm => wrap (add attempts (KAdd tx) auto mm) (fun r => (Some (fst r), snd r))
   | AAddEmpty, Some mm => wrap (add attempts KEmpty false mm) (fun r => (Some (fst r), snd r))
   | AAddBad, Some mm => wrap (add attempts KBad false mm) (fun r => (Some (fst r), snd r))
